@@ -20,6 +20,8 @@ P = {
     "C23": dict(theorems=["Properties/C23.v"],
                 runs=[dict(cmd="c23", quick=1200, thorough=60000, shards_thorough=6),
                       dict(cmd="c23ms", quick=1, thorough=1, model=False)], vm_k=20),
+    "C28": dict(theorems=["Properties/C28.v"],
+                runs=[dict(cmd="c28", quick=40, thorough=3000, shards_thorough=8)], vm_k=12),
     "C09": dict(theorems=["Properties/C09.v"],
                 runs=[dict(cmd="appdb", quick=300, thorough=20000, shards_thorough=4),
                       dict(cmd="c09", quick=16, thorough=600, shards_thorough=8, model=False)]),
@@ -78,6 +80,10 @@ META = {
              "transactions are third-party malleable (vharness c23ms).",
         technique="Coq proof (induction with fuel over the item tree, big-endian arithmetic by lia) + differential "
                   "byte-level fuzz against the real decoders + monitors"),
+    "C28": dict(
+        text="Theorems over unbounded Z for every history of blocks: BeginBlock changes reward / safe reward / price record only on a period-start block with hour 12..14 and more than 3 h after the stored update (or zeroes them at the cap), and does update there; the percentage is the floor of the exact change (drop iff new price < 91 % of the stored one); a drop gives validators' reward 0, off, safe = price-derived; recovery adds exactly 10 BIP per qualifying update up to the price-derived level (closed form for n updates); below the cap every block adds exactly the safe reward to the emission, credits safe-reward to the zero address and mints reward+burn (= emission growth in all reachable states); at/after the 10^10 BIP cap nothing changes any more and rewards are 0 (induction over histories); the cap can be overshot by less than one block's reward; the t.IsZero() branch is dead after InitChain; a zero stored reserve panics. Constants (cap, 350, 1e18, 100, -10, 10 BIP, 12/14 h, 3 h, offset 1) are regenerated from the Go source by xlate. The model runs against the real node block by block (reward, safe reward, stored record, emission, zero-address credit, minted base coin) and against AppDB.UpdatePriceFix alone on boundary inputs.",
+        note=TB + "PARTIAL in one value: priceCount = Int(350*1e18*(r1/r0)^0.25) (math.Pow) is an oracle, validated on every observed value against the exact integer 4th root within 2^-40 (+1 pip); observed agreement >= 57 bits. UpdatePriceBug (before v320) and the one-off v330 emission fix are not modelled. A genesis price record with a zero reserve (cannot come from an export: reserves of an existing pool are positive) panics in the first window: excluded from the generators (wf_genesis), theorem C28_zero_stored_reserve_panics states it, replay `vharness c28 ... zerobip`.",
+        technique="Coq proof (lia, induction over histories / update lists) + regenerated constants + differential correspondence on the real node and on AppDB + monitors"),
     "C09": dict(text="Theorem (appdb layer, complete): for every history of blocks (arbitrary programs over the appdb API) with any restarts, every getter (height, hash, validators, block times, versions, emission, price) returns what a never-restarted node returns; tied to the source by a translator (Commit write order, Save* guards, dirty-flag assignments) and by running random programs against the real AppDB. Node level: generated histories executed straight and with restarts on the real node, comparing responses, app hashes, emission, exports.",
                 note=TB + "PARTIAL: caches of the state modules (order book, candidates, ...) are not modelled; for them only the node-level restart differential speaks.",
                 technique="Coq proof (invariant: caches coherent with disk after Commit) + regenerated code shape + differential (AppDB programs, node restarts)"),
